@@ -108,6 +108,8 @@ type Gen struct {
 	exceptTerms map[string]string
 	recDefs []string
 	pathIDs map[string]int
+	ownOnly bool
+	privBoxes []*LValue
 	stableKeys map[string]bool
 	useTwin bool
 	heapAxioms []heapAxiom
@@ -272,7 +274,8 @@ func (g *Gen) readLeaf(st *State, lv *LValue, leaf Leaf) string {
 	case lvCell:
 		cell := st.cells[lv.Cell]
 		if cell == nil {
-			g.errorf("read of cell %s before allocation", lv.Cell.Comment)
+			// the variable is not declared yet on this path (only reachable through a closure that is
+			// not armed here): any value
 			return g.fresh("undef", leaf.Sort)
 		}
 		i := g.leafIndex(lv.Root, path)
@@ -305,8 +308,7 @@ func (g *Gen) writeLeaf(st *State, lv *LValue, leaf Leaf, val string) {
 	case lvCell:
 		cell := st.cells[lv.Cell]
 		if cell == nil {
-			g.errorf("write of cell %s before allocation", lv.Cell.Comment)
-			return
+			return // not declared on this path (see readLeaf)
 		}
 		i := g.leafIndex(lv.Root, path)
 		nc := append([]string(nil), cell...)
